@@ -18,6 +18,7 @@ def termVal (W : World V) (α : Asg V) : Term V → V
   | .index k t => W.index (termVal W α t) k
   | .call m args t => W.call m args (termVal W α t)
   | .flatten id _ => α id
+  | .concat id _ => α id
 
 def termsVal (W : World V) (α : Asg V) : List (Term V) → List V
   | [] => []
@@ -32,6 +33,7 @@ def TermOk (W : World V) (D : VarId → List V) (α : Asg V) : Term V → Prop
   | .index _ t => TermOk W D α t
   | .call _ _ t => TermOk W D α t
   | .flatten id t => TermOk W D α t ∧ α id ∈ W.items (termVal W α t)
+  | .concat _ _ => True
 
 def TermsOk (W : World V) (D : VarId → List V) (α : Asg V) : List (Term V) → Prop
   | [] => True
